@@ -92,12 +92,22 @@ def gcOtherTriggers (o : Opt) (ss : List SI) (i : Nat) (s : SI) (tar : St) (h : 
     | none => false
     | some st =>
       Gen.gcOtherOk st &&
-      (Gen.gcRule2 tar st || (Gen.gcSame tar st && Gen.gcLess o s.rt os.rt))
+      (Gen.gcRule2 tar st || (Gen.gcSame tar st && Gen.gcLess o s.rt os.rt i j))
 
 def gcDecide (o : Opt) (active : List Hash) (ss : List SI) (i : Nat) (s : SI) (h : Hash) (tar : St) : Bool :=
   if !active.contains h then true
   else if Gen.gcYoung tar then false
   else gcOtherTriggers o ss i s tar h
+
+/-- is `h` known to some other changeable shard (whatever its scrape count)? -/
+def gcHeldElsewhere (ss : List SI) (i : Nat) (h : Hash) : Bool :=
+  (ss.zipIdx).any fun (os, j) => os.changeable && j != i && Gen.gcHeld (os.scraping.has h)
+
+/-- a copy that is kept, is in transfer and has no partner goes back to normal -/
+def gcReverts (active : List Hash) (ss : List SI) (i : Nat) (h : Hash) (tar : St) : Bool :=
+  active.contains h && !Gen.gcYoung tar && Gen.gcRevert (gcHeldElsewhere ss i h) tar
+
+def revertSt (tar : St) : St := { tar with state := Gen.gcRevertTo }
 
 /-- process the keys `hs` of shard `i` -/
 def gcShard (o : Opt) (active : List Hash) (i : Nat) : List Hash → List SI → List SI
@@ -111,6 +121,8 @@ def gcShard (o : Opt) (active : List Hash) (i : Nat) : List Hash → List SI →
       | some tar =>
         if gcDecide o active ss i s h tar then
           gcShard o active i hs (ss.set i { s with scraping := s.scraping.del h })
+        else if gcReverts active ss i h tar then
+          gcShard o active i hs (ss.set i { s with scraping := s.scraping.set h (revertSt tar) })
         else gcShard o active i hs ss
 
 def gcFrom (o : Opt) (active : List Hash) : List Nat → List SI → List SI
